@@ -1021,7 +1021,13 @@ class KernelProof(object):
         from contracts import kernel_replay
         if self.magnetic:
             return kernel_replay.replay_magnetic(self.model)
-        return kernel_replay.replay(self.model, self.kind)
+        rep, info = kernel_replay.replay(self.model, self.kind)
+        if not rep and self.kind == "Iqxy" and self.info.parameters.orientation_parameters:
+            # size meshes agree: try the angular-dispersity mesh (|cos dtheta| weight, jitter centred on zero)
+            rep2, info2 = kernel_replay.replay_2d_jitter(self.model)
+            if rep2:
+                return rep2, info2
+        return rep, info
 
 
 class _Done(Exception):
